@@ -36,14 +36,23 @@ RULE = ('program trees of depth 0..4 (balanced and unbalanced, repetition counts
         'partial unrolling, neighbour unrolling, rejections); mode auto / single / advanced; wrong tuple lengths.  '
         'Half of the programs are built through create_program of Sequence/Repetition templates.  Thorough tier adds '
         'all trees with <= 4 nodes x repetition counts {1,2,3} x limits {1,2,3} and all trees with <= 3 nodes x counts '
-        '{1,2} x every volatile subset x limits.  Non-trivial = accepted program '
+        '{1,2} x every volatile subset x limits.  Plus ten DETERMINISTIC families (c16_families.py), one per input class '
+        'the random stream is blind to: a once-played short table next to a repeated one (limits on the boundaries of '
+        'every neighbour test); one long piece + one piece of 16..176 samples / not a multiple of 16, at every position, '
+        'incl. never-played bad waveforms; X,Y,X / X,Y,Z,Y,X table and waveform patterns; marker levels (negative, '
+        'fractional; even / odd / first / last sample); markers on analog channels; per-channel amplitude / offset / '
+        'transformation / source (same source twice, crosswise); None outputs with both markers; sample rates that '
+        'put the length on 192, multiples of 16 and one step beside (rates 2..1/8, 3, 3/2, 3/4, 5/4, 5); the SAME Loop '
+        'compiled twice (read back after the first compilation); falsy channel ids (0), swap mapping, linearly mixed '
+        'channels (TransformingWaveform), measurements=[].  Non-trivial = accepted program '
         'with more than one table entry or a restructured tree; distinct = canonical JSON of the case.')
 TRUSTED = [
     'Coq 8.16.1 kernel + vm_compute (no native_compute)',
     'numpy float arithmetic is exact on the generated dyadic voltages / amplitudes (binary64 rounding is not modelled)',
     'Waveform.__eq__/__hash__ after get_subset_for_channels: its equality classes are an INPUT of the model (wf_cls)',
     'Waveform.get_sampled of Table/Constant/MultiChannel waveforms (C08): the specification uses samples computed by the harness from the table entries',
-    'harness: generators, exact float->rational conversion, Gallina printers, run-length encoding',
+    'harness: generators, exact float->rational conversion, Gallina printers, run-length encoding, memoised samples; for the "compiled twice" family the tree is read back from the Loop by waveform identity',
+    'MappingPT / build_waveform channel mapping and TransformingWaveform(LinearTransformation) are sampled by qupulse; the specification side uses the harness\' own samples (linear combinations computed exactly)',
     'the instrument driver hardware/awgs/tabor.py is not importable offline; its table layout (idle table first, numbers + 1) is re-created by the harness for PlottableProgram',
 ]
 ASSUMPTIONS = [
@@ -1000,10 +1009,20 @@ def shrink(case, obs, ctx):
 
 
 def search_failing(ctx, broken):
+    """Python-side oracle only (PlottableProgram replay + limits): first the full small-scope families, then a random
+    stream; at most ~150 s"""
     import random
+    import time
+    t0 = time.time()
     rng = random.Random(ctx.get('seed', 0) + 7919)
-    for _ in range(1500):
-        c = gen_prog_case(rng, 'thorough')
+
+    def stream():
+        yield from c16_families.families('thorough')
+        for _ in range(1500):
+            yield gen_prog_case(rng, 'thorough')
+    for c in stream():
+        if time.time() - t0 > 150:
+            break
         o = run_impl(c)
         if 'crash' in o or 'hang' in o:
             return c, o, 'the implementation failed with an unexpected exception / did not return'
@@ -1023,21 +1042,27 @@ MANIFEST = {
                   'restructuring (flatten_and_balance(2) + prepare preserve the played leaf sequence), index '
                   'invariants of the three setdefault de-duplications (waveforms, sequencer tables, segments), segment '
                   'packing, half-rate lemma.  Termination: prepare with an explicit measure, flatten_and_balance by an '
-                  'existence proof + fuel monotonicity AND an explicit fuel bound (weighted size of the unrolled tree); '
-                  'C16_plays_total: with enough fuel the model result is fuel-independent and never the fuel error.  '
-                  'C16_no_crash: for counts >= 1 the model never fails with an unexpected exception type (guard sharp: '
-                  'zero-count witness = known finding).  Limits: every emitted segment >= 192, multiple of 16; '
-                  'every table <= max_seq_len in both modes; >= min_seq_len in advanced mode (single mode refuted by '
-                  'witness = known finding, intended behaviour).  Tie to /repo: exact correspondence check (segments '
-                  'as uploaded binary, tables, mode, accept/reject) and the specification evaluated by Coq on the '
-                  'implementation\'s tables on every case.',
+                  'existence proof + fuel monotonicity + an explicit fuel bound; NEW: both fuel bounds are closed '
+                  'formulas of the SOURCE program (weighted sizes W and R of the unrolled tree: '
+                  'C16_prep_measure_closed, C16_compile_fuel_closed), more fuel never changes a result '
+                  '(C16_compile_fuel_mono), and within the bounds the fixed fuel of the evaluated model stands for '
+                  'unbounded loops (C16_compile_fixed_fuel_stable; 97 % of the quick cases are within the bounds, '
+                  'measured as fuel:within_closed_bounds).  C16_no_crash: for EVERY good program (counts >= 0) the model '
+                  'never fails with an unexpected exception type (was: counts >= 1; the zero-count AttributeError was '
+                  'repaired in /repo 23255f9 and is modelled as the TaborException ENoWaveform).  Limits: every emitted '
+                  'segment >= 192, multiple of 16; every table <= max_seq_len in both modes; >= min_seq_len in advanced '
+                  'mode (single mode refuted by witness = known finding, intended behaviour).  C16_spec_cached_eq: the '
+                  'evaluation form of the specification used by the check equals the specification.  Tie to /repo: '
+                  'exact correspondence check (segments as uploaded binary, tables, mode, accept/reject) and the '
+                  'specification evaluated by Coq on the implementation\'s tables on every case, random stream + ten '
+                  'deterministic families for input classes the random stream cannot reach.',
     'level_note': 'Trusted: Coq kernel, harness, numpy float exactness on dyadic inputs, Waveform equality classes and '
                   'get_sampled (inputs of the model / compared through the spec; hypothesis of C16_plays: equal class '
                   '=> equal data, exact sample counts), affine voltage transformations only; volatile counts are a '
-                  'flag + current value (updates are C15); the fixed fuel (4000) of `compile` is covered by '
-                  'C16_compile_fuel_explicit only under its two explicit bounds (otherwise by the correspondence '
-                  'check); the instrument driver is not importable and not covered.',
+                  'flag + current value (updates are C15); programs beyond the two closed fuel bounds (3 % of the quick '
+                  'cases) are covered by C16_plays_total (some fuel suffices) and the correspondence check, not by the '
+                  'fixed-fuel theorem; the instrument driver is not importable and not covered.',
     'technique': 'Coq proof (translation validation of an executable compiler model, invariants over the parse folds, '
-                 'termination) + correspondence check + PlottableProgram replay oracle',
+                 'termination with closed bounds) + correspondence check + PlottableProgram replay oracle',
     'design_ref': 'DESIGN.md §5 C16',
 }
